@@ -213,7 +213,7 @@ func runC04(r *core.Run) {
 			rankStrings(keys, res)
 			add(sql, "bucket:distinct:"+kind, cpu, map[string]interface{}{"kind": "distinct", "keys": keys, "res": cellsJSON(res)}, t.Rows)
 		case 1: // GROUP BY with aggregates
-			sql := "SELECT " + kcols + ", COUNT(*) AS c, COUNT(v) AS cv, SUM(v) AS s, MIN(v) AS mn, MAX(v) AS mx, AVG(v) AS av FROM t GROUP BY " + kcols
+			sql := "SELECT " + kcols + ", COUNT(*) AS c, COUNT(v) AS cv, SUM(v) AS s, MIN(v) AS mn, MAX(v) AS mx, AVG(v) AS av, COUNT(DISTINCT 1) AS c1, COUNT(DISTINCT v) AS cd FROM t GROUP BY " + kcols
 			res, _, e := x.query(sql + ";")
 			if e != "" {
 				if !errRep[e] {
@@ -243,6 +243,12 @@ func runC04(r *core.Run) {
 					bad = "COUNT is not an integer: " + row[nk].T + "/" + row[nk+1].T
 				}
 				g["cnt"], g["cntv"] = cnt, cntv
+				cnt1, e3 := strconv.Atoi(row[nk+6].T)
+				cntd, e4 := strconv.Atoi(row[nk+7].T)
+				if e3 != nil || e4 != nil {
+					bad = "COUNT is not an integer: " + row[nk+6].T + "/" + row[nk+7].T
+				}
+				g["cnt1"], g["cntd"] = cnt1, cntd
 				s2, ok1 := half2(row[nk+2])
 				mn2, ok2 := half2(row[nk+3])
 				mx2, ok3 := half2(row[nk+4])
